@@ -1100,3 +1100,77 @@ func Resolve(v ssa.Value) ssa.Value {
 	}
 	return v
 }
+
+// AffineRange generalises IndexRange to v = p + K where p is the counter of a for-style loop
+// `for p := init; p < H; p++` and K, init, H do not change in the loop: v takes every value
+// init+K .. H+K-1 exactly once per loop execution in increasing order.
+func (e *TermEnv) AffineRange(v ssa.Value) (lo, hi *Poly, loop *ssa.BasicBlock, ok bool) {
+	if lo, hi, loop, ok = e.IndexRange(v); ok {
+		return
+	}
+	// the loop counter inside v
+	var ph *ssa.Phi
+	var find func(x ssa.Value, depth int)
+	find = func(x ssa.Value, depth int) {
+		if depth > 6 || ph != nil {
+			return
+		}
+		switch y := x.(type) {
+		case *ssa.Phi:
+			ph = y
+		case *ssa.BinOp:
+			if y.Op == token.ADD || y.Op == token.SUB {
+				find(y.X, depth+1)
+				find(y.Y, depth+1)
+			}
+		case *ssa.Convert:
+			find(y.X, depth+1)
+		case *ssa.ChangeType:
+			find(y.X, depth+1)
+		}
+	}
+	find(v, 0)
+	if ph == nil || !isIntType(ph.Type()) {
+		return nil, nil, nil, false
+	}
+	hdr := ph.Block()
+	var init ssa.Value
+	for i, ed := range ph.Edges {
+		if hdr.Dominates(hdr.Preds[i]) {
+			if c, isC := e.Int(ed).Sub(e.Int(ph)).IsConst(); !isC || c != 1 {
+				return nil, nil, nil, false
+			}
+		} else {
+			if init != nil && init != ed {
+				return nil, nil, nil, false
+			}
+			init = ed
+		}
+	}
+	if init == nil {
+		return nil, nil, nil, false
+	}
+	ifi, isIf := hdr.Instrs[len(hdr.Instrs)-1].(*ssa.If)
+	if !isIf {
+		return nil, nil, nil, false
+	}
+	cmp, isCmp := ifi.Cond.(*ssa.BinOp)
+	if !isCmp || cmp.Op != token.LSS || cmp.X != ssa.Value(ph) || !InLoop(hdr, hdr.Succs[0]) {
+		return nil, nil, nil, false
+	}
+	a := e.Int(ph).String()
+	pv := e.Int(v)
+	if pv.Coef(a) != 1 {
+		return nil, nil, nil, false
+	}
+	k := pv.Sub(PAtom(a))
+	H, I := e.Int(cmp.Y), e.Int(init)
+	for _, q := range []*Poly{k, H, I} {
+		for _, at := range q.Atoms() {
+			if strings.Contains(at, "phi@") {
+				return nil, nil, nil, false
+			}
+		}
+	}
+	return I.Add(k), H.Add(k), hdr, true
+}
